@@ -170,6 +170,19 @@ class Evaluator:
         if isinstance(st, ast.With) and getattr(self, "lenient", False):
             return self._block(st.body, env)
         if isinstance(st, (ast.For, ast.While, ast.Try, ast.With)):
+            if getattr(self, "unroll_once", False) and isinstance(st, ast.For):
+                # one symbolic iteration: the loop variable is "an element of <iter>"; what the body builds carries the
+                # tags of that element (enough to see *what* is folded into an accumulator)
+                itv = self._try(st.iter, env)
+                elem = Sym(f"elem({_txt(itv) if isinstance(itv, Sym) else norm(st.iter)})", all_tags(itv) | {("elem-of", norm(st.iter))})
+                try:
+                    self._bind(st.target, elem, env)
+                    r = self._block(st.body, env)
+                    if r is not None:
+                        return None
+                except (Unsupported, Fork):
+                    pass
+                return None
             if getattr(self, "skip_loops", False) and isinstance(st, (ast.For, ast.While)):
                 # opaque loop: everything it assigns becomes an unknown symbolic value
                 for n in ast.walk(st):
@@ -329,7 +342,7 @@ class Evaluator:
             env2 = dict(env)
             self._bind(g.target, Sym(norm(g.target)), env2)
             inner = self._try(e.elt, env2)
-            return Sym(norm(e)[:60], all_tags(it) | all_tags(inner))
+            return Sym(norm(e)[:60], all_tags(it) | all_tags(inner) | {("elem-of", norm(g.iter))})
         if isinstance(e, ast.BinOp):
             a, b = self.ev(e.left, env), self.ev(e.right, env)
             if isinstance(a, list) and isinstance(b, list) and isinstance(e.op, ast.Add):
@@ -389,7 +402,7 @@ class Evaluator:
             if isinstance(base, Sym):
                 t = ("call", f.attr)
                 pos = tuple(_txt(a) for a in args)
-                return Sym(f"{base.text}.{f.attr}(..)", base.tags | argtags | kwtags | {t, ("callpos", f.attr, pos)})
+                return Sym(f"{base.text}.{f.attr}({', '.join(pos)[:90]})", base.tags | argtags | kwtags | {t, ("callpos", f.attr, pos)})
             if isinstance(base, (list, tuple)) and f.attr in ("copy",):
                 return list(base)
             if isinstance(base, list) and f.attr == "append" and len(args) == 1:
@@ -405,7 +418,60 @@ class Evaluator:
                 base.clear()
                 return None
             raise Unsupported(f"method call on concrete value {norm(e)[:40]}")
+        if not isinstance(f, (ast.Name, ast.Attribute)):
+            # the callee is itself computed (`(sqa.union if distinct else sqa.union_all)(l, r)`)
+            fv = self._try(f, env)
+            if isinstance(fv, Sym):
+                nm = fv.text
+                seen.add(("call", nm.split(".")[-1]))
+                return Sym(f"{nm}(..)", fv.tags | argtags | kwtags | {("call", nm.split(".")[-1]), ("call", nm), ("callpos", nm, tuple(_txt(a) for a in args))})
         name = dotted(f) or norm(f)
+        # calls into helper functions of the same module are followed (bounded depth): the helper is evaluated with its
+        # parameters bound to the argument values; several outcomes are merged into one symbolic value
+        fns = getattr(self, "functions", None)
+        if fns and getattr(self, "_depth", 0) < 3:
+            simple = f.id if isinstance(f, ast.Name) else f.attr if isinstance(f, ast.Attribute) and isinstance(f.value, ast.Name) and f.value.id in ("self", "cls") else None
+            h = fns.get(simple) if simple else None
+            if h is not None and not isinstance(h, list):
+                a = h.args
+                params = [p.arg for p in a.args]
+                if params and params[0] in ("self", "cls") and isinstance(f, ast.Attribute):
+                    params = params[1:]
+                if len(args) <= len(params) and not a.vararg and not a.kwarg:
+                    bind = dict(zip(params, args))
+                    ok = True
+                    for k, v in kws.items():
+                        if k in bind or k not in params + [p.arg for p in a.kwonlyargs]:
+                            ok = False
+                        bind[k] = v
+                    defaults = dict(zip(params[len(params) - len(a.defaults):], a.defaults)) if a.defaults else {}
+                    for p_, d_ in zip(a.kwonlyargs, a.kw_defaults):
+                        if d_ is not None:
+                            defaults[p_.arg] = d_
+                    for p_ in params + [x.arg for x in a.kwonlyargs]:
+                        if p_ not in bind:
+                            if p_ in defaults:
+                                bind[p_] = self._try(defaults[p_], {})
+                            else:
+                                ok = False
+                    if ok:
+                        sub = Evaluator(bind, self.max_paths)
+                        sub.lenient = getattr(self, "lenient", False)
+                        sub.skip_loops = getattr(self, "skip_loops", False)
+                        sub.functions = fns
+                        sub._depth = getattr(self, "_depth", 0) + 1
+                        try:
+                            outs = sub.run_function(h)
+                        except Unsupported:
+                            outs = None
+                        if outs:
+                            for _r, e2, _d in outs:
+                                seen.update(e2.get("__tags__", ()))
+                            rets = [r for r, _e, _d in outs]
+                            if len(rets) == 1:
+                                return rets[0]
+                            tags = frozenset().union(*(all_tags(r) for r in rets))
+                            return Sym(f"{name}(..)", tags | argtags | kwtags)
         if isinstance(f, ast.Name) and isinstance(env.get(f.id), Sym):
             # a function value chosen earlier (`combine = sqa.union if distinct else sqa.union_all; combine(l, r)`)
             name = env[f.id].text
@@ -454,3 +520,24 @@ def filter_destinations(stmts, qname, subject, binding):
                     dest.add(k)
         res.append(dest)
     return res
+
+
+def module_functions(module, cls_name=None):
+    """{simple name: FunctionDef} of the module's top-level functions and (if given) the methods of one class; names
+    defined more than once are left out"""
+    out: dict = {}
+    dup = set()
+    for st in module.tree.body:
+        if isinstance(st, ast.FunctionDef):
+            if st.name in out:
+                dup.add(st.name)
+            out[st.name] = st
+        elif isinstance(st, ast.ClassDef) and (cls_name is None or st.name == cls_name):
+            for m in st.body:
+                if isinstance(m, ast.FunctionDef) and cls_name is not None:
+                    if m.name in out:
+                        dup.add(m.name)
+                    out[m.name] = m
+    for d in dup:
+        out.pop(d, None)
+    return out
